@@ -100,7 +100,14 @@ def check(case: dict):
     c3 = L.make_cfg(L.json_copy(spec))
     require(c3.stable_hash_cfg() == c.stable_hash_cfg(), "C18:hash-not-content-based", "two configs built from the same spec hash differently")
     fn = call("C18:to_fname", c.to_fname)
-    require(fn == _fname_oracle(c), "C18:fname", f"{fn} vs {_fname_oracle(c)}")
+    # "built from the name, grid size, maze count, generator and the last five digits of that hash": every ingredient must be in it
+    # (how they are joined / abbreviated beyond that is the library's choice)
+    from muutils.misc import sanitize_fname, shorten_numerical_to_str
+
+    parts = {"name": sanitize_fname(str(c.name)), "grid size": str(c.grid_n), "maze count": shorten_numerical_to_str(c.n_mazes),
+             "generator": c.maze_ctor.__name__.removeprefix("gen_"), "hash digits": str(c.stable_hash_cfg() % 10**5)}
+    missing = [k for k, v in parts.items() if v not in fn and not (k == "maze count" and str(c.n_mazes) in fn)]
+    require(not missing, "C18:fname", f"{fn} lacks {missing} (expected ingredients {parts})")
     labels = [spec["ctor"]]
     for fld in case.get("vary", []):
         try:
